@@ -29,7 +29,9 @@ RULE = ("stream 1: one case = one run of the real Simulator with a StochasticNet
         "one aims at order dependence inside post_charging_update: more satisfied EVs than waiters); every case is also run in two "
         "fresh interpreters with PYTHONHASHSEED=1 / 4242 (the check runs with 0) and the recorded runs must be identical; "
         "40% of the cases name their stations unusually (integers from 0, an empty string, mixed); in a third of the simulator "
-        "runs the scheduler raises once in a period with an arrival and run() is called again (interrupted-and-resumed run)")
+        "runs the scheduler raises (Exception / BaseException subclass, arrival or arbitrary periods) and run() is called again with the "
+        "same or a fresh scheduler; 12% run a second simulation on the same network object; every 5th direct history drives two "
+        "live networks alternately; odd periods / voltages / ratings, int and falsy session ids, numpy times, callers clearing returned lists")
 ASSUMPTIONS = ["each session is plugged in once and unplugged once, after its plugin (C01); the monitor re-checks it on every recorded run",
                "EV objects are identified with their session ids; random.choice is an arbitrary index into the free list",
                "theorems are about Model/StochNet.v; the model is tied to stochastic_network.py by the per-call state comparison "
@@ -58,16 +60,57 @@ def rand_scenario(rng, tier="quick"):
     rng.shuffle(sessions)
     # in a third of the runs the scheduler raises once in a period in which an EV arrives; the harness catches the
     # exception and calls run() again (interrupted-and-resumed run)
-    raise_at = sorted(set(rng.sample([s["arrival"] for s in sessions], min(len(sessions), rng.randint(1, 2))))) if rng.random() < 0.35 else []
-    return dict(n=n, sessions=sessions, early=rng.random() < 0.6,
-                sched=rng.choice(["unc", "unc", "scr", "scr", "fcfs"]),
-                sched_seed=rng.randint(0, 10 ** 6), max_recompute=rng.choice([None, 1, 2]),
-                seed=rng.randint(0, 10 ** 6), ids=rand_ids(rng), raise_at=raise_at)
+    raise_at = []
+    if rng.random() < 0.35:
+        horizon = max(s["departure"] for s in sessions)
+        pool = [s["arrival"] for s in sessions] if rng.random() < 0.5 else list(range(horizon + 1))   # arrival periods / any period
+        raise_at = sorted(set(rng.sample(pool, min(len(pool), rng.randint(1, 3)))))
+    sc = dict(n=n, sessions=sessions, early=rng.random() < 0.6,
+              sched=rng.choice(["unc", "unc", "scr", "scr", "fcfs"]),
+              sched_seed=rng.randint(0, 10 ** 6), max_recompute=rng.choice([None, 1, 2]),
+              seed=rng.randint(0, 10 ** 6), ids=rand_ids(rng), raise_at=raise_at,
+              raise_kind=rng.choice(["Exception", "Exception", "BaseException"]), fresh_on_resume=rng.random() < 0.3)
+    unusual(rng, sc)
+    if rng.random() < 0.12:
+        # object reuse: a second simulation on the SAME network object (and, half of the time, the same scheduler object)
+        m2 = rng.randint(1, n + 3)
+        sc["second"] = [dict(k=m + j, arrival=rng.randint(0, 3), departure=0, energy=rng.choice([0.3, 1.0, 5.0]),
+                             max_power=7.68) for j in range(m2)]
+        for x in sc["second"]:
+            x["departure"] = x["arrival"] + rng.randint(1, 4)
+        sc["reuse_sched"] = rng.random() < 0.5
+    return sc
+
+
+def unusual(rng, sc):
+    """unusual-but-legal parameters and dtypes (checklist 6, 8): mostly defaults, each deviation in a fraction of the cases"""
+    n = sc["n"]
+    sc["sid_mode"] = rng.choice(["plain", "plain", "plain", "int0", "mixed"])
+    sc["period"] = rng.choice([5, 5, 5, 1, 7, 2.5])
+    sc["voltages"] = [rng.choice([240, 240, 208, 120]) for _ in range(n)]
+    sc["rates"] = [rng.choice([32, 32, 16, 80]) for _ in range(n)]
+    raw = rng.choice(["bool", "bool", "bool", "int", "none_or_str"])
+    sc["early_raw"] = sc["early"] if raw == "bool" else (1 if sc["early"] else 0) if raw == "int" else ("yes" if sc["early"] else None)
+    sc["np_times"] = rng.random() < 0.25
+    sc["est_dep"] = rng.random() < 0.25
 
 
 def rand_ids(rng):
-    """how the stations are named: usual strings, or legal-but-unusual ids (integers from 0, an empty string, mixed)"""
-    return rng.choice(["plain", "plain", "plain", "int0", "empty", "mixed"])
+    """how the stations are named: usual strings, or legal-but-unusual ids (integers from 0, an empty string, mixed,
+    names whose lexicographic order differs from the registration order / mixed case / numeric-looking)"""
+    return rng.choice(["plain", "plain", "plain", "int0", "empty", "mixed", "lex"])
+
+
+LEX_IDS = ["S-9", "S-10", "S-11", "s-2", "10", "9", "S-1", "Z"]
+
+
+def sess_name(sc, k):
+    mode = sc.get("sid_mode", "plain")
+    if mode == "int0":
+        return k
+    if mode == "mixed":
+        return k if k % 2 == 0 else ("" if k == 1 else "s%d" % k)
+    return "sess-%03d" % k
 
 
 def station_ids(sc):
@@ -76,6 +119,8 @@ def station_ids(sc):
         return list(range(n))
     if mode == "empty":
         return [""] + ["ST-%02d" % i for i in range(1, n)] if n else []
+    if mode == "lex":
+        return LEX_IDS[:n] + ["ST-%02d" % i for i in range(len(LEX_IDS), n)]
     if mode == "mixed":
         return [0 if i == 0 else "" if i == 1 else ("ST-%02d" % i if i % 2 == 0 else i) for i in range(n)]
     return ["ST-%02d" % i for i in range(n)]
@@ -104,8 +149,10 @@ def rand_direct(rng, tier="quick"):
         else:
             ops.append(["P", sorted(k for k in arrived if rng.random() < p_full)])
     ops.append(["P", []])
-    return dict(n=n, sessions=sessions, early=rng.random() < 0.75, sched="direct", sched_seed=0,
-                max_recompute=None, seed=rng.randint(0, 10 ** 6), ops=ops, ids=rand_ids(rng))
+    sc = dict(n=n, sessions=sessions, early=rng.random() < 0.75, sched="direct", sched_seed=0,
+              max_recompute=None, seed=rng.randint(0, 10 ** 6), ops=ops, ids=rand_ids(rng), poke=rng.random() < 0.4)
+    unusual(rng, sc)
+    return sc
 
 
 def rand_hashprobe(rng):
@@ -130,13 +177,28 @@ def rand_hashprobe(rng):
         if rng.random() < 0.3:
             ops.append(["P", sorted(order)])
     ops.append(["P", []])
-    return dict(n=n, sessions=sessions, early=True, sched="direct", sched_seed=0,
-                max_recompute=None, seed=rng.randint(0, 10 ** 6), ops=ops, ids=rand_ids(rng))
+    sc = dict(n=n, sessions=sessions, early=True, sched="direct", sched_seed=0,
+              max_recompute=None, seed=rng.randint(0, 10 ** 6), ops=ops, ids=rand_ids(rng), poke=rng.random() < 0.4)
+    unusual(rng, sc)
+    sc["early"], sc["early_raw"] = True, rng.choice([True, 1, "yes"])
+    return sc
 
 
 def extra_streams(rng, tier):
     n = {"quick": 140, "thorough": 2500}[tier]
-    cases = [make_case(rand_hashprobe(rng) if i % 4 == 0 else rand_direct(rng, tier)) for i in range(n)]
+    cases = []
+    i = 0
+    while len(cases) < n:
+        sc = rand_hashprobe(rng) if i % 4 == 0 else rand_direct(rng, tier)
+        i += 1
+        if i % 5 == 3:
+            # two live networks driven alternately: one case for each of them
+            sc["other"] = rand_hashprobe(rng) if rng.random() < 0.4 else rand_direct(rng, tier)
+            cases.append(make_case(dict(sc, role="main")))
+            cases.append(make_case(dict(sc, role="other")))
+        else:
+            cases.append(make_case(sc))
+    cases = cases[:n]
     cross_process(cases)
     return [("d", CORR_HEADER, CHECK_FN, cases)]
 
@@ -203,34 +265,34 @@ def _scheduler(sc):
                 self.r = pyrandom.Random(seed)
 
             def schedule(self, active_sessions):
-                return {s.station_id: [self.r.choice([0, 0, 8, 16, 32])] for s in active_sessions}
+                return {s.station_id: [self.r.choice([0, 0, 8, 12.5, 16])] for s in active_sessions}
         a = Scripted(sc["sched_seed"])
     a.max_recompute = sc["max_recompute"]
     return a
 
 
-def run_impl(sc):
-    """one run of the real simulator; returns dict(steps=[(op, snapshot)], choices=[...], crash=None|str)"""
-    import random as pyrandom
-    from datetime import datetime
-    from acnportal.acnsim import Simulator, EventQueue, PluginEvent
+class _Shim:
+    """stands for the module `random` inside stochastic_network.py; every choice is credited to the network whose
+    top-level call is in progress"""
+    def __init__(self):
+        self.owner = None
+
+    def choice(self, seq):
+        import random as pyrandom
+        r = pyrandom.choice(seq)
+        self.owner.choices.append(list(seq).index(r))
+        return r
+
+    def __getattr__(self, name):
+        import random as pyrandom
+        return getattr(pyrandom, name)
+
+
+def _build(sc, shim):
+    """a recording StochasticNetwork with the stations of sc, and the EV objects of sc (first and second simulation)"""
+    import numpy as np
     from acnportal.acnsim.models import EV, EVSE, Battery
     from acnportal.contrib.acnsim.network import stochastic_network as snmod
-
-    class Shim:
-        """stands for the module `random` inside stochastic_network.py"""
-        def __init__(self):
-            self.log = []
-
-        def choice(self, seq):
-            r = pyrandom.choice(seq)
-            self.log.append(list(seq).index(r))
-            return r
-
-        def __getattr__(self, name):
-            return getattr(pyrandom, name)
-
-    shim = Shim()
     st_num, se_num = {}, {}
 
     class Rec(snmod.StochasticNetwork):
@@ -239,6 +301,7 @@ def run_impl(sc):
             self.rlog = []
             self.seen = {}
             self.gone = set()
+            self.choices = []
 
         def _present(self):
             p = [e.ev.session_id for e in self._EVSEs.values() if e.ev is not None]
@@ -251,12 +314,13 @@ def run_impl(sc):
                         station_of=[[se_num[s], (None if ev.station_id is None else st_num.get(ev.station_id, -1))]
                                     for s, ev in self.seen.items()],
                         swaps=self.swaps, never=self.never_charged, early_unplug=self.early_unplug,
-                        draws=len(shim.log), gone=sorted(se_num[g] for g in self.gone))
+                        draws=len(self.choices), gone=sorted(se_num[g] for g in self.gone))
 
         def _top(self, op, fn):
             if self._depth > 0:
                 return fn()
             self._depth += 1
+            shim.owner = self
             before = set(self._present())
             try:
                 r = fn()
@@ -281,70 +345,147 @@ def run_impl(sc):
             full = sorted(se_num[s] for s, ev in self.seen.items() if ev.fully_charged)
             return self._top(["P", full], lambda: snmod.StochasticNetwork.post_charging_update(self))
 
-    net = Rec(early_departure=sc["early"])
+    net = Rec(early_departure=sc.get("early_raw", sc["early"]))
     net._rec_init()
+    volts, rates = sc.get("voltages") or [], sc.get("rates") or []
     for i, sid in enumerate(station_ids(sc)):
         st_num[sid] = i + 1
-        net.register_evse(EVSE(sid, max_rate=32), 240, 0)
-    evs = []
-    for s in sc["sessions"]:
-        name = "sess-%03d" % s["k"]
-        se_num[name] = SESS0 + s["k"]
-        evs.append(EV(s["arrival"], s["departure"], s["energy"], "ST-00", name,
-                      Battery(100, 0, s["max_power"])))
+        net.register_evse(EVSE(sid, max_rate=rates[i] if i < len(rates) else 32), volts[i] if i < len(volts) else 240, 0)
+
+    def make_ev(x):
+        name = sess_name(sc, x["k"])
+        se_num[name] = SESS0 + x["k"]
+        a, d = x["arrival"], x["departure"]
+        if sc.get("np_times"):
+            a, d = np.int64(a), np.int64(d)
+        est = None
+        if sc.get("est_dep"):
+            est = x["departure"] + [-1, 0, 2][x["k"] % 3]
+            est = max(est, x["arrival"] + 1)
+        return EV(a, d, x["energy"], "ST-00", name, Battery(100, 0, x["max_power"]), estimated_departure=est)
+    evs = [make_ev(x) for x in sc["sessions"]]
+    evs2 = [make_ev(x) for x in sc.get("second", [])]
+    return net, evs, evs2
+
+
+def _direct_ops(sc, net, evs):
+    """generator: performs the network calls of a direct history one at a time"""
+    by_k = {x["k"]: ev for x, ev in zip(sc["sessions"], evs)}
+    for op in sc["ops"]:
+        if op[0] == "A":
+            net.plugin(by_k[op[1]])
+        elif op[0] == "D":
+            net.unplug(by_k[op[1]].station_id, by_k[op[1]].session_id)
+        else:
+            for k, ev in by_k.items():
+                ev._energy_delivered = ev.requested_energy if k in op[1] else 0
+            net.post_charging_update()
+        if sc.get("poke"):
+            # the caller mutates what the network handed out: must not reach the network
+            for got in (net.available_evses(), net.station_ids, net.active_evs, net.active_station_ids):
+                if isinstance(got, list):
+                    got.clear()
+        yield
+
+
+def _simulate(sc, net, evs, evs2):
+    """drive the network through the real Simulator (interrupted / resumed / reused as the scenario says)"""
+    from datetime import datetime
+    from acnportal.acnsim import Simulator, EventQueue, PluginEvent, Interface
+    pending = set(sc.get("raise_at", []))
+    resumed, iterations = 0, 0
+
+    class Interrupted(Exception):
+        pass
+
+    class InterruptedBase(BaseException):
+        pass
+    exc = InterruptedBase if sc.get("raise_kind") == "BaseException" else Interrupted
+    holder = {}
+
+    def arm(alg):
+        inner_run = alg.run
+
+        def run_once():
+            t = int(holder["sim"].iteration)
+            if t in pending:
+                pending.discard(t)
+                raise exc("scheduler failed in period %d" % t)
+            return inner_run()
+        alg.run = run_once
+        return alg
+    alg = arm(_scheduler(sc))
+    for nr, batch in enumerate([evs, evs2]):
+        if nr == 1 and not batch:
+            break
+        if nr == 1 and not sc.get("reuse_sched"):
+            alg = arm(_scheduler(sc))
+        events = [PluginEvent(ev.arrival, ev) for ev in batch]
+        sim = Simulator(net, alg, EventQueue(events), datetime(2020, 1, 1), period=sc.get("period", 5), verbose=False)
+        events.clear()                                     # caller-owned list, mutated after the call
+        holder["sim"] = sim
+        for _ in range(len(pending) + 1):
+            try:
+                sim.run()
+                break
+            except (Interrupted, InterruptedBase):
+                resumed += 1            # the caller handles the failure and resumes the same simulator ...
+                if sc.get("fresh_on_resume"):
+                    alg = arm(_scheduler(sc))              # ... possibly with a fresh scheduler object
+                    sim.scheduler = alg
+                    sim.max_recompute = alg.max_recompute
+                    alg.register_interface(Interface(sim))
+        iterations += int(sim.iteration)
+    return iterations, resumed
+
+
+def _record(net, evs, crash, iterations, resumed):
+    if iterations is None:
+        iterations = sum(1 for op, _ in net.rlog if op[0] == "P")
+    return dict(steps=[[op, sn] for op, sn in net.rlog], choices=list(net.choices), crash=crash,
+                iterations=iterations, resumed=resumed,
+                energies=[float(ev.energy_delivered) for ev in evs])
+
+
+def run_impl(sc):
+    """one recorded run; returns dict(steps=[(op, snapshot)], choices=[...], crash=None|str, ...).
+    sc['other'] (direct histories only): a SECOND live network of another scenario is driven alternately with this one
+    (sc['role'] says whose record is returned)."""
+    import random as pyrandom
+    from acnportal.contrib.acnsim.network import stochastic_network as snmod
+    shim = _Shim()
     saved_mod, saved_state = snmod.random, pyrandom.getstate()
-    crash = None
-    iterations = None
-    resumed = 0
+    crash, iterations, resumed = None, None, 0
+    net, evs, evs2 = _build(sc, shim)
+    other = sc.get("other")
+    if other is not None:
+        net_b, evs_b, _ = _build(other, shim)
     try:
         snmod.random = shim
         pyrandom.seed(sc["seed"])
         if "ops" in sc:
-            # direct drive: the calls the simulator would make, for an arbitrary well-formed history
-            by_k = {s["k"]: ev for s, ev in zip(sc["sessions"], evs)}
-            for op in sc["ops"]:
-                if op[0] == "A":
-                    net.plugin(by_k[op[1]])
-                elif op[0] == "D":
-                    net.unplug(by_k[op[1]].station_id, by_k[op[1]].session_id)
-                else:
-                    for k, ev in by_k.items():
-                        ev._energy_delivered = ev.requested_energy if k in op[1] else 0
-                    net.post_charging_update()
-        else:
-            events = EventQueue([PluginEvent(ev.arrival, ev) for ev in evs])
-            alg = _scheduler(sc)
-            pending = set(sc.get("raise_at", []))
-            inner_run = alg.run
-
-            class Interrupted(Exception):
-                pass
-
-            def run_once():
-                t = int(sim.iteration)
-                if t in pending:
-                    pending.discard(t)
-                    raise Interrupted("scheduler failed in period %d" % t)
-                return inner_run()
-            alg.run = run_once
-            sim = Simulator(net, alg, events, datetime(2020, 1, 1), period=5, verbose=False)
-            for _ in range(len(pending) + 1):
+            gens = [_direct_ops(sc, net, evs)]
+            if other is not None:
+                gens.append(_direct_ops(other, net_b, evs_b))
+            turn = pyrandom.Random(sc["seed"] + 17)
+            while gens:
+                g = gens[turn.randrange(len(gens))]
                 try:
-                    sim.run()
-                    break
-                except Interrupted:
-                    resumed += 1            # the caller handles the failure and resumes the same simulator
-            iterations = int(sim.iteration)
-    except Exception as ex:  # noqa
+                    next(g)
+                except StopIteration:
+                    gens.remove(g)
+        else:
+            iterations, resumed = _simulate(sc, net, evs, evs2)
+    except BaseException as ex:  # noqa
+        if isinstance(ex, (KeyboardInterrupt, SystemExit)):
+            raise
         crash = "%s: %s" % (type(ex).__name__, str(ex)[:120])
     finally:
         snmod.random = saved_mod
         pyrandom.setstate(saved_state)
-    if iterations is None:
-        iterations = sum(1 for op, _ in net.rlog if op[0] == "P")
-    return dict(steps=[[op, sn] for op, sn in net.rlog], choices=list(shim.log), crash=crash,
-                iterations=iterations, resumed=resumed,
-                energies=[float(ev.energy_delivered) for ev in evs])
+    if other is not None and sc.get("role") == "other":
+        return _record(net_b, evs_b, crash, None, 0)
+    return _record(net, evs + evs2, crash, iterations, resumed)
 
 
 # ---------------------------------------------------------------------------------------------
@@ -378,6 +519,11 @@ def case_coq(sc, impl):
         coq_list(["(%s, %s)" % (ev_coq(op), snap_coq(sn)) for op, sn in impl["steps"]]))
 
 
+def subject(sc):
+    """the scenario whose network a case is about (the partner when role == 'other')"""
+    return sc["other"] if sc.get("other") is not None and sc.get("role") == "other" else sc
+
+
 def make_case(sc):
     impl = run_impl(sc)
     again = run_impl(sc)
@@ -385,14 +531,17 @@ def make_case(sc):
                      and again["energies"] == impl["energies"] and again["crash"] == impl["crash"])
     queued = any(sn["queue"] for _, sn in impl["steps"])
     early_used = any(sn["early_unplug"] for _, sn in impl["steps"])
-    kind = "n%d/%s/%s/%s%s%s" % (sc["n"], "early" if sc["early"] else "late", sc["sched"],
-                                 "earlyunplug" if early_used else ("queue" if queued else "noqueue"),
-                                 "" if sc.get("ids", "plain") == "plain" else "/ids-" + sc["ids"],
-                                 "/resumed%d" % impl["resumed"] if impl.get("resumed") else "")
-    return dict(input=sc, impl=impl, coq=case_coq(sc, impl), ambiguous=False, kind=kind,
-                sig=[sc["n"], sc["early"], sc["sched"], sc["seed"], sc["sched_seed"],
-                     [[s["k"], s["arrival"], s["departure"], s["energy"]] for s in sc["sessions"]], sc.get("ops"),
-                     sc.get("ids"), sc.get("raise_at")],
+    me = subject(sc)
+    kind = "n%d/%s/%s/%s%s%s%s%s" % (me["n"], "early" if me["early"] else "late", me["sched"],
+                                     "earlyunplug" if early_used else ("queue" if queued else "noqueue"),
+                                     "" if me.get("ids", "plain") == "plain" else "/ids-" + me["ids"],
+                                     "/resumed%d" % impl["resumed"] if impl.get("resumed") else "",
+                                     "/reuse" if sc.get("second") else "",
+                                     "/pair-%s" % sc.get("role", "main") if sc.get("other") is not None else "")
+    return dict(input=sc, impl=impl, coq=case_coq(me, impl), ambiguous=False, kind=kind,
+                sig=[me["n"], me["early"], me["sched"], sc["seed"], sc["sched_seed"],
+                     [[s["k"], s["arrival"], s["departure"], s["energy"]] for s in me["sessions"]], me.get("ops"),
+                     me.get("ids"), sc.get("raise_at"), sc.get("role"), me.get("sid_mode"), me.get("period")],
                 nontrivial=queued)
 
 
@@ -427,6 +576,7 @@ def monitor(case):
                     "process with PYTHONHASHSEED=%s than in this one (PYTHONHASHSEED=%s)" % (hs, os.environ.get("PYTHONHASHSEED", "random")))
         if same is None:
             return "the run in a second process (PYTHONHASHSEED=%s) failed to start" % hs
+    sc = subject(sc)
     n = sc["n"]
     arrived, departed_ev = [], []
     occ, queue = [None] * n, []
@@ -514,7 +664,7 @@ def monitor(case):
     n_post = sum(1 for op, _ in impl["steps"] if op[0] == "P")
     if n_post != impl.get("iterations", n_post):
         return "post_charging_update was called %d times in %d periods" % (n_post, impl["iterations"])
-    if sorted(arrived) != sorted(SESS0 + s["k"] for s in sc["sessions"]):
+    if sorted(arrived) != sorted(SESS0 + s["k"] for s in sc["sessions"] + sc.get("second", [])):
         return "not every session was plugged in"
     if sorted(departed_ev) != sorted(arrived):
         return "not every session got its Unplug event (C01 precondition)"
